@@ -270,9 +270,9 @@ def run(ctx):
     rng = ctx.rng("hist")
     cases = [gen_case(rng, rng.randint(1, 60)) for _ in range(ctx.n(700, 8000))]
     corr.run_stream(ctx, "histories", cases, impl, line, oracle, nontrivial, shrinks, expect)
-    ex = list(exhaustive(ctx.n(3, 5)))
+    ex = list(exhaustive(ctx.n(3, 4)))
     corr.run_stream(ctx, "exhaustive-small", ex, impl, line, oracle, nontrivial, shrinks, expect)
-    ctx.notes["exhaustive_depth"] = ctx.n(3, 5)
+    ctx.notes["exhaustive_depth"] = ctx.n(3, 4)
 
 
 def replay(payload):
